@@ -1,6 +1,6 @@
 (* C02 - AEAD decryption inverts encryption, rejects forgeries, wipes plaintext
    (ASCON-128/128a/80pq part; SIV and ISAP are in Properties_C06.v). *)
-From AsconV Require Import Model.Aeadm Proofs.AeadP Proofs.PermP Props.Properties_C01.
+From AsconV Require Import Model.Aeadm Model.Sivm Proofs.AeadP Proofs.PermP Props.Properties_C01 Props.Properties_C06.
 From Coq Require Import ZArith.
 Local Open Scope nat_scope.
 
@@ -37,6 +37,20 @@ Theorem C02_check_tag : forall m t1 t2, length t1 = length t2 -> bytes_ok t1 -> 
   check_tag m t1 t2 = if beq_bytes t1 t2 then (0%Z, m) else ((-1)%Z, map (fun _ => 0%N) m).
 Proof. exact check_tag_exact. Qed.
 Print Assumptions C02_check_tag.
+
+(* SIV and ISAP: the same exactness, proved in Proofs/SivP.v and Proofs/IsapP.v and
+   stated (with their model-level counterparts) in Props/Properties_C06.v *)
+Theorem C02_siv_exact : forall v K N A C m, variant_ok v -> wf_kn v K N ->
+  (Siv.siv_decrypt Perm.perm v K N A C = Some m <->
+   length C = length m + 16 /\ Siv.siv_encrypt Perm.perm v K N A m = C).
+Proof. exact Properties_C06.C06_siv_exact. Qed.
+Print Assumptions C02_siv_exact.
+
+Theorem C02_isap_exact : forall iv ke ka N A C m, Properties_C06.ivariant_ok iv -> length ke = 40 -> length ka = 40 -> length N = 16 ->
+  (Siv.isap_decrypt Perm.perm iv ke ka N A C = Some m <->
+   length C = length m + 16 /\ Siv.isap_encrypt Perm.perm iv ke ka N A m = C).
+Proof. exact Properties_C06.C06_isap_exact. Qed.
+Print Assumptions C02_isap_exact.
 
 Example C02_nonvacuous :
   let K := map N.of_nat (seq 0 20) in let N := map N.of_nat (seq 16 16) in
